@@ -18,7 +18,8 @@ res = {"property": pid, "worktree_demo_files": demo_files}
 demo_name = None
 for f in demo_files:
     if f.endswith(".rs") and "/tests/" in f: demo_name = os.path.splitext(os.path.basename(f))[0]
-cmd = f"cargo test -p {crate} --test {demo_name} --offline{features}" if demo_name else None
+cfgflag = 'RUSTFLAGS="--cfg deepcausality_rs_deep_causality_verif" ' if "deepcausality_rs_deep_causality_verif" in open(os.path.join(seed, "demo.rs")).read() else ""
+cmd = f"{cfgflag}cargo test -p {crate} --test {demo_name} --offline{features}" if demo_name else None
 res["demo_cmd"] = cmd
 rc1, o1 = sh(cmd); res["demo_with_change"] = "fails" if rc1 != 0 else "PASSES(!)"
 sh("git diff > SEEDED/.lib.diff && git checkout -- .")          # no git stash: the stash is shared between worktrees
